@@ -152,7 +152,10 @@ def rule_r2(prog, res) -> None:
         res.ok("C02.R2", res.site(gl), "column list = first two of ATTR_ORDER plus the flagged rest, in ATTR_ORDER order")
     else:
         slices = [unparse(x) for x in ast.walk(gl.node) if isinstance(x, ast.Subscript) and "ATTR_ORDER" in unparse(x)]
-        res.violation("C02.R2", gl, gl.node, f"column list is not derived as ATTR_ORDER[:2] + flagged ATTR_ORDER[2:] (found {slices})", key_extra="get-list")
+        if slices and sorted(slices) != ["ATTR_ORDER[2:]", "ATTR_ORDER[:2]"]:
+            res.violation("C02.R2", gl, gl.node, f"column list is not derived as ATTR_ORDER[:2] + flagged ATTR_ORDER[2:] (found {slices})", key_extra="get-list")
+        else:
+            raise AnalysisError("C02.R2: DataChunkInfo.get_list is written in an unrecognised way")
     gad = prog.func("get_array_dtype")
     rpd = prog.func("read_patch_data")
     res.touch(gad)
